@@ -96,6 +96,7 @@ def pollCands (U : Universe) (tid n : Nat) (w : CandWait) (a : AS) : M (CandWait
         pure (.listener, { a with listeners := a.listeners ++ [(n, tid)] })
       else do
         logCall s!"c{n}"
+        modify fun s => { s with issuedCands := n :: s.issuedCands }
         requestStarted
         pure (.owner, { a with inflight := (n, tid) :: a.inflight, gates := a.gates ++ [(s!"c{n}", tid)] })
   | .owner =>
